@@ -81,6 +81,13 @@ def handleBundle (op : String) (args : List String) : Option String :=
     | .ok (.error _) => pure "err"
     | .error => pure "err"
     | .panic => pure "panic"
+  | "bundle.write.cw" => do            -- destination already wrapped in a CountingWriter with a counted prefix: same bytes, same count
+    let (b, _) ← parseBundle args
+    match write b with
+    | .ok (.ok bs) => pure s!"ok {toHex bs}"
+    | .ok (.error _) => pure "err"
+    | .error => pure "err"
+    | .panic => pure "panic"
   | "bundle.write.plain" => do
     let (b, _) ← parseBundle args
     match write b with
